@@ -276,6 +276,17 @@ func (g *GenCtx) Gen(d *Desc, v reflect.Value, ft string) {
 			g.Gen(d.Elem, s.Index(i), "p")
 		}
 		v.Set(s)
+	case KHighload:
+		n := g.Rng.Intn(4)
+		if n == 0 {
+			return
+		}
+		s := reflect.MakeSlice(v.Type(), n, n)
+		for i := 0; i < n; i++ {
+			s.Index(i).FieldByName("Message").Set(reflect.ValueOf(g.RandCell(200, 1, 1)))
+			s.Index(i).FieldByName("Mode").SetUint(uint64(g.Rng.Intn(256)))
+		}
+		v.Set(s)
 	case KOpaque:
 		// a few unmodelled codecs whose zero value is outside their domain get a minimal in-domain value
 		switch baseName(v.Type()) {
